@@ -451,17 +451,32 @@ func genProbe(t *rapid.T, tr gen.Tree, kind string) (ops.Op, int, string) {
 		k = "open" // the only operation the view itself implements
 	}
 	op := ops.Op{K: k, P: name, Perm: 0o755}
+	// the OTHER arguments take degenerate values a third of the time (zero permission bits, zero time, empty data, no flags):
+	// a fast path keyed on such a value must not come before the name is looked at
+	degenerate := rapid.IntRange(0, 2).Draw(t, "degenerate") == 0
+	if degenerate {
+		op.Perm = 0
+	}
 	switch k {
 	case "openfile":
 		op.Flag = gen.Flags(t, "flag")
+		if degenerate {
+			op.Flag = os.O_RDONLY
+		}
 		if op.Flag&os.O_WRONLY != 0 || op.Flag&os.O_RDWR != 0 {
 			op.Data = []byte("x")
 		}
 	case "writefile":
 		op.Data = []byte("w")
 		op.Perm = 0o644
+		if degenerate {
+			op.Data = []byte{}
+		}
 	case "chtimes":
 		op.Sec = 1_500_000_000
+		if degenerate {
+			op.Sec = 0 // the zero time.Time
+		}
 	}
 	return op, 1, class
 }
